@@ -1700,6 +1700,31 @@ class Ledger(object):
 
     def call_rows(self):
         for call, env, ranges, facts in self.walk.call_sites:
+            if call.name in ("memset", "memcpy", "memmove") and len(call.a) == 3:
+                # a block write / copy touches count = nbytes / sizeof(element) cells from the pointer on
+                count = self.walk.alloc_extent(call, env)
+                for i in ((0,) if call.name == "memset" else (0, 1)):
+                    v, off = self.arg_region(call.a[i], env)
+                    a = Acc()
+                    a.canon = self.walk.canon
+                    a.func, a.var = self.func.name, v
+                    a.arr = v.name if v is not None else "?"
+                    a.text = "%s(%s, %s)" % (call.name, estr(call.a[i]), estr(call.a[2]))
+                    a.rw, a.line, a.ranges, a.facts = ("w" if i == 0 else "r"), call.line, ranges, facts
+                    a.stmt, a.kind, a.callee, a.cparam = estr(call), "region", call.name, "arg%d" % i
+                    a.idx, a.length = off, count
+                    if v is None or off is None or count is None:
+                        row = dict(acc=a, key=a.show_key(), extent=None, extent_src="", used=[], site=None)
+                        reason, site = self.in_table(a)
+                        if reason:
+                            row["cls"], row["why"], row["site"] = "PRECONDITION", reason, site
+                            self.site_use[site] += 1
+                        else:
+                            row["cls"], row["why"] = "UNDECIDED", "the block size of %s is not of the form count * sizeof(element)" % call.name
+                        self.rows.append(row)
+                    else:
+                        self.rows.append(self.decide(a))
+                continue
             info = self.req.get(call.name)
             if info is None:
                 continue
